@@ -120,7 +120,7 @@ mutual
             · rename_i r3 h3
               injection h with h
               subst h
-              exact HasItem.inl _ (HasItem.inl _ (hd _ _))
+              exact HasItem.inl _ (HasItem.inl _ (HasItem.inl _ (hd _ _)))
   theorem walkSelections_hasItems (s : SV) (d : QueryDoc) (cur : Option OperationDef) (J : Jump) :
       ∀ (xs : Selections) (parent : Option Definition) (ws : WS) r, walkSelections s d cur J parent xs ws = some r →
         ∀ i, InSels xs i → HasItem s r.2 i
@@ -245,5 +245,68 @@ theorem walkDoc_hasItems (s : SV) (d : QueryDoc) (evs : List Event) (h : walkDoc
         rcases hi with hi | rfl
         · exact HasItem.inr _ (a i hi)
         · exact HasItem.inr (s := s) _ (i := .dirs _ _) b
+
+/- ---------- the directives of a fragment DEFINITION are walked in every walk that enters it ---------- -/
+
+theorem walkDirectiveItems_complete_cur (s : SV) (cur : Option OperationDef) (parent : Option Definition) (loc : Bytes) :
+    ∀ (ds : List Directive) (ws : WS), ∀ dir ∈ ds, ∃ e ∈ (walkDirectiveItems s cur parent loc ds ws).2,
+      e.cur = cur ∧ e.p = .directive dir (s.directive? dir.name) parent loc
+  | [], _, dir, h => by cases h
+  | d0 :: rest, ws, dir, h => by
+    simp only [walkDirectiveItems]
+    rcases List.mem_cons.1 h with rfl | h
+    · exact ⟨_, List.mem_append_right _ List.mem_cons_self, rfl, rfl⟩
+    · obtain ⟨e, he, x⟩ := walkDirectiveItems_complete_cur s cur parent loc rest _ dir h
+      exact ⟨e, List.mem_append_right _ (List.mem_cons_of_mem _ he), x⟩
+
+/-- the directive list `ds`, written at `loc` with parent `parent`, has been walked on behalf of `cur` -/
+def HasDirsCur (s : SV) (cur : Option OperationDef) (parent : Option Definition) (loc : Bytes)
+    (ds : List Directive) (evs : List Event) : Prop :=
+  (∃ e ∈ evs, e.cur = cur ∧ e.p = .directiveList ds) ∧
+  ∀ dir ∈ ds, ∃ e ∈ evs, e.cur = cur ∧ e.p = .directive dir (s.directive? dir.name) parent loc
+
+theorem walkDirectives_complete_cur (s : SV) (cur : Option OperationDef) (parent : Option Definition)
+    (ds : List Directive) (loc : Bytes) (ws : WS) :
+    HasDirsCur s cur parent loc ds (walkDirectives s cur parent ds loc ws).2 := by
+  simp only [walkDirectives]
+  refine ⟨⟨_, List.mem_append_right _ (List.mem_singleton.2 rfl), rfl, rfl⟩, fun dir hd => ?_⟩
+  obtain ⟨e, he, x⟩ := walkDirectiveItems_complete_cur s cur parent loc ds ws dir hd
+  exact ⟨e, List.mem_append_left _ he, x⟩
+
+theorem HasDirsCur.inl {s : SV} {cur : Option OperationDef} {parent : Option Definition} {loc : Bytes}
+    {ds : List Directive} {a : List Event} (b : List Event) (h : HasDirsCur s cur parent loc ds a) :
+    HasDirsCur s cur parent loc ds (a ++ b) := by
+  obtain ⟨⟨e, he, x⟩, h2⟩ := h
+  refine ⟨⟨e, List.mem_append_left _ he, x⟩, fun dir hd => ?_⟩
+  obtain ⟨e, he, x⟩ := h2 dir hd
+  exact ⟨e, List.mem_append_left _ he, x⟩
+
+theorem HasDirsCur.inr {s : SV} {cur : Option OperationDef} {parent : Option Definition} {loc : Bytes}
+    {ds : List Directive} {b : List Event} (a : List Event) (h : HasDirsCur s cur parent loc ds b) :
+    HasDirsCur s cur parent loc ds (a ++ b) := by
+  obtain ⟨⟨e, he, x⟩, h2⟩ := h
+  refine ⟨⟨e, List.mem_append_right _ he, x⟩, fun dir hd => ?_⟩
+  obtain ⟨e, he, x⟩ := h2 dir hd
+  exact ⟨e, List.mem_append_right _ he, x⟩
+
+/-- a spread that enters its fragment (first visit in this walk) walks the directives of the
+    fragment DEFINITION on behalf of the current operation, at location FRAGMENT_DEFINITION, with
+    the definition of the fragment's type condition as parent -/
+theorem walkSelection_spread_defDirs (s : SV) (d : QueryDoc) (cur : Option OperationDef) (J : Jump)
+    (parent : Option Definition) (nm : Name) (dirs : List Directive) (p : Pos) (ws : WS) (r : WS × List Event)
+    (f : FragmentDef) (h : walkSelection s d cur J parent (.spread nm dirs p) ws = some r)
+    (hf : fragForName d nm = some f) (hv : ws.visited.contains f.name = false) :
+    HasDirsCur s cur (s.type? f.typeCond) locFragmentDefinition f.dirs r.2 := by
+  unfold walkSelection at h
+  simp only at h
+  rw [hf] at h
+  simp only [walkDirectives_visited, markSel_visited, hv, Bool.false_eq_true, if_false] at h
+  split at h
+  · cases h
+  · rename_i r3 h3
+    injection h with h
+    subst h
+    exact HasDirsCur.inl _ (HasDirsCur.inl _ (HasDirsCur.inr _
+      (walkDirectives_complete_cur s cur (s.type? f.typeCond) f.dirs locFragmentDefinition _)))
 
 end Gql.Validate
